@@ -68,6 +68,28 @@ def install_lp_counter():
     P.linprog = counted
 
 
+def _library_escape(e):
+    """An exception of an undocumented type raised from inside pacti's own source while the harness was using a public
+    operation where it expected none: reported as a violation (no public operation may let such a type escape), not as a
+    harness malfunction.  Documented types (ValueError family), oracle/explorer errors and exceptions raised by harness code
+    itself stay harness errors (exit 2)."""
+    from .oracle import OracleError
+
+    if isinstance(e, (ValueError, OracleError)) or type(e).__name__ in ("ExplorerError",):
+        return None
+    tb = e.__traceback__
+    last = None
+    while tb is not None:
+        last = tb.tb_frame.f_code.co_filename
+        tb = tb.tb_next
+    src = os.path.realpath(loader.SRC) + os.sep
+    if last is None or not os.path.realpath(last).startswith(src):
+        return None
+    return [("escaped:" + type(e).__name__, False, None,
+             {"sub": {"harness-context": type(e).__name__}, "what": "%s escaped from pacti (%s) during a public operation: %s" % (
+                 type(e).__name__, os.path.basename(last), str(e)[:120])})]
+
+
 def _worker(mod, tier, seed, w, nw, deadline, conn):
     out = {
         "evaluations": 0,
@@ -110,7 +132,12 @@ def _worker(mod, tier, seed, w, nw, deadline, conn):
                 out["dups"] += 1
                 continue
             out["casehashes"].add(h)
-            res = mod.run_case(case)
+            try:
+                res = mod.run_case(case)
+            except Exception as e:  # noqa
+                res = _library_escape(e)
+                if res is None:
+                    raise
             out["cases"] += 1
             out["last_idx"] = idx
             keep = len(out["samples"]) < 2 and w == 0
